@@ -152,9 +152,9 @@ Lemma jt_inv_add_node g x : jt_inv g -> jt_inv (g_add_node g x).
 Proof. intros [Hw Hf]. split; [apply wf_add_node; exact Hw|]. rewrite add_node_edges. exact Hf. Qed.
 Lemma jstep_inv g o : jt_inv g -> jt_inv (fst (jstep g o)).
 Proof.
-  intros H. destruct o as [xs|es]; simpl.
+  intros H. destruct o as [xs|es ws]; simpl.
   - revert g H. induction xs as [|x r IH]; intros g H; simpl; [exact H|]. apply IH, jt_inv_add_node, H.
-  - apply jt_add_edges_inv; assumption.
+  - destruct (wlen_bad (length es) ws); [exact H|]. apply jt_add_edges_inv; assumption.
 Qed.
 Lemma jrun_inv ops : forall g, jt_inv g -> jt_inv (jrun g ops).
 Proof. induction ops as [|o r IH]; intros g H; simpl; [exact H|]. apply IH. apply jstep_inv; assumption. Qed.
